@@ -172,7 +172,7 @@ func diagClass(m *mismatch) string {
 		return "" // how many items are left over depends on the enclosing constructs
 	case "type":
 		return m.VM
-	case "meta":
+	case "meta", "malformed-code":
 		return reNum.ReplaceAllString(m.Diag, "N")
 	}
 	return ""
@@ -275,6 +275,14 @@ func (ck *checker) runUnits(b *batch, units []*unit) {
 		if len(units) > 1 {
 			ck.runUnits(b, units[:len(units)/2])
 			ck.runUnits(b, units[len(units)/2:])
+			return
+		}
+		if ev.Malformed != "" {
+			// the compiler emitted bytecode its own verification refuses: reported, not counted as a rejected program
+			ck.outcomeN("MISMATCH-malformed-code", 1)
+			ck.mu.Lock()
+			ck.fails = append(ck.fails, failure{b, units[0], mismatch{Fn: 0, Kind: "malformed-code", Diag: ev.Malformed, Count: 1}})
+			ck.mu.Unlock()
 			return
 		}
 		ck.nNeoRejected.Inc()
@@ -434,9 +442,26 @@ func (ck *checker) failing(b *batch, u *unit, m *mismatch) {
 					break
 				}
 			}
+			if mm == nil && ev.Malformed != "" {
+				// alone, the same defect may show as bytecode the compiler's own verification refuses
+				mm = &mismatch{Fn: 0, Kind: "malformed-code", Diag: ev.Malformed, Count: 1}
+			}
 			if mm != nil {
 				sp, minSrc = p1, cand
 				break
+			}
+		}
+		if mm == nil {
+			// the failure needs the neighbours (code placement): confirm and record the whole file
+			if pf, err := b.prog(b.units); err == nil {
+				ev := evalProg(pf, false)
+				for i := range ev.Mism {
+					if unitOf(b.units, pf, ev.Mism[i].Fn) == u && ev.Mism[i].Kind == m.Kind {
+						mm = &ev.Mism[i]
+						sp, minSrc = pf, s.Hdr+s.Src
+						break
+					}
+				}
 			}
 		}
 		if mm == nil {
@@ -483,10 +508,28 @@ func (ck *checker) failing(b *batch, u *unit, m *mismatch) {
 	}
 	minFn, minM := u.fn, *m
 	corePaths := u.fn.Paths
-	if u.kind == "grammar" {
+	if u.kind == "grammar" && m.Kind != "malformed-code" {
 		minFn, minM, corePaths = ck.minimise(b, u, m)
 	}
 	one := &Prog{Prelude: b.prelude, Extra: b.extra, Fns: []Fn{minFn}}
+	if m.Kind != "malformed-code" && !ck.r.Expired() {
+		// what is recorded must fail when replayed: a failure that depends on where the
+		// code lies (jump distances, neighbours) may need the whole file
+		ev := evalProg(one, false)
+		same := false
+		for i := range ev.Mism {
+			same = same || ev.Mism[i].Kind == minM.Kind
+		}
+		switch {
+		case same:
+		case ev.Malformed != "":
+			minM = mismatch{Kind: "malformed-code", Diag: ev.Malformed, Count: 1}
+		default:
+			if pf, err := b.prog(b.units); err == nil {
+				one = pf
+			}
+		}
+	}
 	norm := strings.Replace(minFn.Src, "func "+minFn.Name+"(", "func F(", 1)
 	feat := "grammar-" + minFn.Feature + "/" + strings.Join(minFn.Paths, "+")
 	if len(feat) > 90 {
@@ -1002,6 +1045,9 @@ func replay(ck *checker) {
 		o := "agree"
 		if ev.NeoErr != "" || ev.GoErr != "" {
 			o = "does-not-build: " + ev.NeoErr + ev.GoErr
+		}
+		if ev.Malformed != "" && d.Mismatch.Kind == "malformed-code" {
+			last = &mismatch{Fn: 0, Kind: "malformed-code", Diag: ev.Malformed, Count: 1}
 		}
 		for k := range ev.Mism {
 			m := &ev.Mism[k]
